@@ -125,10 +125,11 @@ const (
 	c20New
 	c20Append
 	c20Seal
+	c20BuildKeyID
 	c20NOps
 )
 
-var c20OpNames = []string{"Builder.Build(WithRNG)", "biscuit.New(rng)", "Append(rng)", "Seal(rng)"}
+var c20OpNames = []string{"Builder.Build(WithRNG)", "biscuit.New(rng)", "Append(rng)", "Seal(rng)", "Builder.Build(WithRNG, WithRootKeyID)"}
 
 func init() {
 	register(&sup.Check{
@@ -162,6 +163,10 @@ func init() {
 					switch op {
 					case c20Build:
 						b := biscuit.NewBuilder(priv, biscuit.WithRNG(rd))
+						hx.FillBuilder(b, poolP)
+						tok, err = b.Build()
+					case c20BuildKeyID:
+						b := biscuit.NewBuilder(priv, biscuit.WithRNG(rd), biscuit.WithRootKeyID(7))
 						hx.FillBuilder(b, poolP)
 						tok, err = b.Build()
 					case c20New:
@@ -230,6 +235,10 @@ func init() {
 				if !bytes.Equal(last.Key, wantPub) || !bytes.Equal(env.Proof.Secret, seed) {
 					w.Class("degenerate-key")
 					w.Violate("C20:key-not-derived-from-delivered-bytes", human, fmt.Sprintf("announced key %x, proof %x", last.Key, env.Proof.Secret), fmt.Sprintf("key %x from seed %x", wantPub, seed))
+					return
+				}
+				if op == c20BuildKeyID && (tok.RootKeyID() == nil || *tok.RootKeyID() != 7) {
+					w.Violate("C20:option-lost", human, "root key id missing", "7")
 					return
 				}
 				a, e := tok.AuthorizerFor(biscuit.WithSingularRootPublicKey(pub), hx.LongLimits)
